@@ -41,7 +41,9 @@ def budget(tier):
 
 @st.composite
 def _case(draw, tier):
-    dev = draw(gen.device(terminals=(0, 3), holes=(0, 2), probes=(0, 2, 3), film_kinds=("box", "ellipse", "union"), size=(3.5, 5.5)).filter(gen.valid_device))
+    scr = draw(st.integers(0, 3)) == 0
+    dev = draw(gen.device(terminals=(0, 3), holes=(0, 2), probes=(0, 2, 3), film_kinds=("box", "ellipse", "union"), size=(3.5, 5.5),
+                          screening=scr).filter(gen.valid_device))
     dev["layer"]["conductivity"] = draw(st.sampled_from([None, None, 3.5, 0.1]))
     fu = draw(st.sampled_from(gen.FIELD_UNITS))
     cu = draw(st.sampled_from(gen.CURRENT_UNITS))
@@ -65,7 +67,7 @@ def _case(draw, tier):
                              max_solve_retries=draw(st.integers(0, 10)), adaptive_time_step_multiplier=draw(gen.rf(0.1, 0.9)),
                              nsteps=draw(st.integers(2, 9)), skip_steps=draw(st.sampled_from([0, 0, 2])), save_every=draw(st.integers(1, 4)),
                              progress_interval=draw(st.sampled_from([0, 5])), field_units=fu, current_units=cu,
-                             include_screening=False, max_iterations_per_step=draw(st.sampled_from([1000, 50])),
+                             include_screening=scr, max_iterations_per_step=draw(st.sampled_from([1000, 200])),
                              screening_tolerance=draw(st.sampled_from([1e-3, 1e-2])), screening_step_size=draw(st.sampled_from([0.1, 1.0])),
                              screening_step_drag=draw(st.sampled_from([0.5, 1.0])), terminal_psi=tp,
                              sparse_solver=draw(st.sampled_from(["enum", "superlu", "SUPERLU"])), pause_on_interrupt=draw(st.booleans())))
@@ -127,7 +129,8 @@ def check_case(spec):
     dev = build.make_device_or_refuse(dspec)
     present = [bool(dspec["holes"]), bool(dspec["terminals"]), bool(dspec.get("probes")), dspec["layer"].get("conductivity") is not None]
     res.label(f"holes={'y' if present[0] else 'n'}", f"terminals={'y' if present[1] else 'n'}", f"probes={'y' if present[2] else 'n'}",
-              f"conductivity={'y' if present[3] else 'n'}", f"A={spec['A']['kind']}", f"output={spec['output']}")
+              f"conductivity={'y' if present[3] else 'n'}", f"A={spec['A']['kind']}", f"output={spec['output']}",
+              "screening" if spec["options"].get("include_screening") else "no screening")
     o = dict(spec["options"])
     none_fields = [k for k in ("terminal_psi",) if o.get(k) is None] + (["output_file"] if spec["output"] == "none" else [])
     res.nontrivial = any(present) and not all(present) and bool(none_fields)
